@@ -1,5 +1,7 @@
 package hnet
 
+import "github.com/libp2p/go-libp2p/core/peer"
+
 // Add-only accessors used by the C16 driver (kept in a file of their own so
 // that they cannot collide with edits to fake.go).
 
@@ -9,4 +11,26 @@ func (f *FakePeer) InboundTotal() int {
 	f.mu.Lock()
 	defer f.mu.Unlock()
 	return len(f.inStreams)
+}
+
+// StepWrite lets exactly the Write that is currently blocked on p's gate go
+// through and keeps p gated: the gate is swapped under the wrapper's lock, so
+// the next Write on a stream to p blocks again. With no gate installed it
+// installs one. (C16: the backlog of a closed queue must not reach the wire.)
+func (w *WrapHost) StepWrite(p peer.ID) {
+	w.mu.Lock()
+	old := w.gates[p]
+	w.gates[p] = make(chan struct{})
+	if old != nil {
+		close(old)
+	}
+	w.mu.Unlock()
+}
+
+// Writes reports how many Write calls on streams to p have passed the gate
+// (i.e. were handed to the transport) so far.
+func (w *WrapHost) Writes(p peer.ID) int {
+	w.mu.Lock()
+	defer w.mu.Unlock()
+	return w.WriteCount[p]
 }
